@@ -80,6 +80,12 @@ class C10:
         return st.one_of([s_ for _, s_, _ in self.strata(ctx)])
 
     def fixed_cases(self, ctx):
+        # Python 2 byte strings that LOOK like UTF-8 but are not (encoded surrogates, beyond U+10FFFF, overlong forms)
+        odd = [["y", "eda080"], ["y", "61edb0807a"], ["y", "f4908080"], ["y", "c080"], ["y", "e08080"], ["y", "edafbfedbfbf"]]
+        for target in ("2.7", "2.5", "2.3", "2.1", "pypy2.7"):
+            for ch in ([], [1, 1, 1, 1, 1, 1, 1, 1]):
+                yield {"target": target, "enc": "ref", "mver": None, "values": odd, "choices": ch}
+        yield {"target": "2.7", "enc": "real", "mver": 2, "values": odd, "choices": []}
         # byte strings around the sizes at which readers switch to chunked reads (1 MiB and its multiples)
         for target in ("2.7", "3.9", "3.3"):
             for n in ((1 << 20) - 1, 1 << 20, (1 << 20) + 5, (2 << 20) + 1, (3 << 20) - 7):
